@@ -140,6 +140,9 @@ def run(ctx):
             for rp in sel:
                 insts.append({"u": {"lib": a}, "v": {"lib": b}, "reps": list(rp)})
             k += 1
+    # narrowing floating target: origins beyond 2^24 source units, so that the input is not a float although the (small) result is -- the subtraction must happen in the calculation rep
+    for j, (ua, vb, vo) in enumerate([(1000, 1000, 500), (900, 1000, -499), (1000, 900, 433), (997, 1000, 487)]):
+        insts.append({"u": {"a": 1, "b": ua, "c": 1, "d": 1, "o": 1, "origin_member": True}, "v": {"a": 1, "b": vb, "c": 60, "d": 1, "o": vo, "origin_member": True}, "reps": ["double", "float"]})
     ctx.bump("grid_instances", len(insts))
     rnd = hyp.collect(ctx, inst(), 60 if quick else 600)
     insts += rnd
